@@ -338,6 +338,61 @@ def codec_same_name_task(payload):
         build.drop_module(mod)
 
 
+ENGINE_SRC = '''
+class NTdt(NamedTuple):
+    when: datetime.date
+    n: int = 0
+class NTin(NamedTuple):
+    inner: NTdt
+    k: str = ""
+@dataclass
+class C(DataClassDictMixin):
+    x: {T} = field(metadata={{{MD}}})
+'''
+ENGINE_POINTS = {
+    # (type, metadata) -> (input for from_dict, expected to_dict()["x"])
+    ("NTdt", "'serialize': 'as_dict', 'deserialize': 'as_dict'"): ("{'when': '2020-01-02', 'n': 1}", "{'when': '2020-01-02', 'n': 1}"),
+    ("NTdt", "'deserialize': 'as_dict'"): ("{'when': '2020-01-02', 'n': 1}", "['2020-01-02', 1]"),
+    ("NTdt", "'serialize': 'as_dict'"): ("['2020-01-02', 1]", "{'when': '2020-01-02', 'n': 1}"),
+    ("NTdt", "'serialize': 'as_list', 'deserialize': 'as_list'"): ("['2020-01-02', 1]", "['2020-01-02', 1]"),
+    ("NTin", "'serialize': 'as_dict', 'deserialize': 'as_dict'"): ("{'inner': {'when': '2020-01-02', 'n': 1}, 'k': 'q'}", "{'inner': {'when': '2020-01-02', 'n': 1}, 'k': 'q'}"),
+}
+
+
+def engine_task(payload):
+    """documented field-level engines for named tuples (as_dict / as_list) on named tuples whose members have converters of
+    their own: the class builds, every generated function is closed, and the sample decodes / encodes as documented (bounded)"""
+    pid, T, MD = payload
+    tag = "{nt-engine+member-converter}" if ("deserialize" in MD and "as_dict" in MD.split("deserialize")[1][:12]) else ""
+    label = f"[engine:{T}:{MD.replace(chr(39), '').replace(' ', '')}]{tag}"
+    src = g4.PRELUDE + ENGINE_SRC.format(T=T, MD=MD)
+    inp, want = ENGINE_POINTS[(T, MD)]
+    try:
+        mod, recs = build.build_module(src)
+    except Exception as e:
+        return {"obligations": [dict(id=f"{pid}.G9{label}/builds", status="refuted", unit="class creation", detail=f"schema does not build: {type(e).__name__}: {e}"[:300],
+                                     witness={"confirmed": True, "source": src, "why": f"{type(e).__name__}: {e}"[:300]})]}
+    try:
+        probs = []
+        closed = []
+        for r in recs:
+            closed += units.closedness_problems(r)
+        try:
+            v = mod.C.from_dict({"x": eval(inp)})
+            out = v.to_dict()["x"]
+            if out != eval(want):
+                probs.append(f"to_dict()['x'] = {out!r}, expected {eval(want)!r}")
+            if type(v.x).__name__ != T:
+                probs.append(f"decoded {type(v.x).__name__}")
+        except Exception as e:  # noqa
+            probs.append(f"from_dict({{'x': {inp}}}) raised {type(e).__name__}: {str(e)[:160]}")
+        return {"obligations": [dict(id=f"{pid}.G9{label}/closed", status="proved" if not closed else "refuted", detail="; ".join(closed)[:500]),
+                                dict(id=f"{pid}.G9{label}/sample", status="proved" if not probs else "refuted", bounded=True, detail="; ".join(probs)[:400],
+                                     witness=({"confirmed": True, "source": src, "input": f"{{'x': {inp}}}", "why": probs[0]} if probs else None))]}
+    finally:
+        build.drop_module(mod)
+
+
 def lattice_task(payload):
     pid, texpr = payload
     return _verify_closed_only(pid, f"[{texpr}]", g4.class_source(texpr))
